@@ -586,7 +586,9 @@ PARTS = {
                      "array of exactly `cap` elements inside canaries; arbitrary block streams with capacities around the "
                      "announced counts",
                 configs_quick=["pinned", "O0", "native"], configs_thorough=CFG_T),
-    "C16": dict(coq_props=["Properties_C16_bp128", "Properties_C16_bp128_src"], files=FILES, generate=generate_C16,
+    # Properties_C16_bp128_hdr_src: varintBP128GetCount regenerated from the current source (gen/c2coq_hdr.py ->
+    # coq/gen/Src_hdr_bp128.v), proved equal to the hand model in HdrSrcBP128.v
+    "C16": dict(coq_props=["Properties_C16_bp128", "Properties_C16_bp128_src", "Properties_C16_bp128_hdr_src"], files=FILES, generate=generate_C16,
                 oracles=ORACLES_C16, classify=classify, search=search, assumptions=ASSUME,
                 trusted_base=["gen/c2coq.py + CSem.v for the *_src theorems (C-to-Gallina translator, clang 14 typed AST "
                               "-> coq/gen/Src_leaf_bp128.v via gen/c2coq_leaf.py: varintBP128BitsNeeded32/64 regenerated "
